@@ -24,7 +24,7 @@ RULE = ('cases = (source FromArray | one-column file | two-column file, Domain(l
         'involved; distinct = distinct case digests')
 ASSUMPTIONS = ['np.allclose (rtol 1e-5, atol 1e-8) is the matching criterion, as the property states',
                'text files are written with repr precision so that loading reproduces the doubles exactly',
-               'files with a single row are excluded (np.loadtxt cannot tell a 1-row two-column file from a 2-row one-column file)']
+               'single-row files (np.loadtxt cannot tell a 1-row two-column file from a 2-row one-column file) only have to be rejected by createPRISM / the first cost evaluation on domains of >= 3 points']
 MINIMA = {'quick': {'match.values_identical': 150, 'mismatch.rejected': 300, 'alias_probe': 100, 'system_stage': 100},
           'thorough': {'match.values_identical': 5000, 'mismatch.rejected': 10000, 'alias_probe': 3000, 'system_stage': 3000}}
 SHARDS = {'quick': 4, 'thorough': 16}
@@ -47,6 +47,10 @@ def finish(ctx):
 def cases(ctx):
     rng = ctx.rng('c12')
     n = ctx.budget(1000, 40000)
+    for it in range(max(4, n // 25)):
+        # files with a single data row: np.loadtxt returns a 0-d (one column) or 1-d (two columns) array
+        yield {'src': str(rng.choice(['file1', 'file2'])), 'L': int(rng.choice([3, 4, 16, 64, 100])), 'dom': 'dr', 'sp': 0.1, 'len': 'single_row', 'kmod': 'equal',
+               'mag': 0.0, 'rank': int(rng.integers(1, 3)), 'seed': int(rng.integers(0, 2 ** 31)), 'listinput': False}
     for it in range(n):
         yield {'src': str(rng.choice(['array', 'array_k', 'array_k', 'file1', 'file2', 'file2'])),
                'L': int(rng.choice([3, 4, 16, 64, 100, 128, 512, int(rng.integers(3, 2049))])),
@@ -68,7 +72,7 @@ def run_case(ctx, case):
     L = int(case['L'])
     dom = pyPRISM.Domain(length=L, dr=case['sp']) if case['dom'] == 'dr' else pyPRISM.Domain(length=L, dk=case['sp'])
     k = np.array(dom.k)
-    n = {'equal': L, 'truncated': max(2, L - int(rng.integers(1, max(2, L // 2)))), 'extended': L + int(rng.integers(1, L + 1))}[case['len']]
+    n = {'equal': L, 'truncated': max(2, L - int(rng.integers(1, max(2, L // 2)))), 'extended': L + int(rng.integers(1, L + 1)), 'single_row': 1}[case['len']]
     if n == L and case['len'] != 'equal':
         n = L + 1
     data = rng.uniform(0.1, 5.0, size=n)
@@ -99,7 +103,8 @@ def run_case(ctx, case):
         if a != b:
             raise core.Skip('allclose asymmetric borderline')
         expect = 'match' if a else 'reject'
-    late_ok = (src == 'file1')      # one-column file of the wrong length: may be rejected as late as createPRISM / first cost
+    late_ok = (src == 'file1') or case['len'] == 'single_row'      # one-column file of the wrong length (and any single-row file, which numpy
+    # cannot tell apart): may be rejected as late as createPRISM / first cost
     # ---- build the real object
     caller = np.array(data)
     if src in ('array', 'array_k'):
@@ -143,6 +148,27 @@ def run_case(ctx, case):
         ctx.violation('tab:matching-data-rejected', '%s.calculate raised although the data matches the domain (L=%d, kmod=%s mag=%.1e)' % (src, L, case['kmod'], case['mag']))
     else:
         ctx.hook('mismatch.rejected')
+    # ---- the same omega object evaluated again on ANOTHER grid: the verdict is about that grid, not about the first call
+    if outcome == 'returned' and expect == 'match' and rng.random() < 0.6:
+        ctx.hook('reuse_on_other_grid')
+        mode = str(rng.choice(['longer', 'shorter', 'rescaled'] if has_k else ['longer', 'shorter']))
+        if mode == 'longer':
+            k2 = np.concatenate([k, k[-1] + dom.dk * np.arange(1, 4)])
+        elif mode == 'shorter':
+            k2 = k[:-1].copy()
+        else:
+            k2 = k * 1.01
+        try:
+            out2 = om.calculate(np.array(k2))
+            ctx.violation('tab:mismatch-accepted:second-call-other-grid', '%s object evaluated first on its own grid and then on a %s grid returned values instead of raising' % (src, mode)) if not (src == 'file1') else None
+        except Exception as e:   # noqa
+            if not isinstance(e, (AssertionError, ValueError, IndexError, TypeError)):
+                raise
+            ctx.hook('mismatch.rejected')
+        # and afterwards it still serves its own grid verbatim
+        out3 = np.asarray(om.calculate(np.array(k)))
+        if out3.shape != data.shape or not np.array_equal(out3, data):
+            ctx.violation('tab:values-not-verbatim:after-reuse', '%s: values change after the object was evaluated on another grid' % src)
     # ---- stage 2: the System level (wrong-length one-column file must be stopped here at the latest; matching data must arrive verbatim)
     if (expect == 'reject' and late_ok and outcome == 'returned') or (expect == 'match' and outcome == 'returned' and rng.random() < 0.5):
         ctx.hook('system_stage')
